@@ -64,6 +64,10 @@ func init() {
 		c11Op{name: "render-as-template", kind: "render"},
 		// after a render: calls on the OTHER documents of the family (the template's base, a sibling rendered
 		// from the same engine); the rendered document the history continues on must not change with them
+		// load now, render later: between the two calls the caller keeps editing the base document
+		c11Op{name: "AddHeader(default,P {{v}})", kind: "hf", hf: "header", typ: document.HeaderFooterTypeDefault, def: c11Def{Text: "P {{v}}", Call: "plain"}},
+		c11Op{name: "LoadTemplateFromDocument (engine kept; the base keeps being edited)", kind: "load"},
+		c11Op{name: "render through the engine that loaded the document earlier (the result is judged, the history stays on the base)", kind: "render-late"},
 		c11Op{name: "on the template base: AddFooter(even,G)", kind: "hf-base", hf: "footer", typ: document.HeaderFooterTypeEven, def: c11Def{Text: "G", Call: "plain"}},
 		c11Op{name: "on a sibling render of the same engine: AddHeader(first,S) + AddFooter(default,S2)", kind: "hf-sibling"},
 	)
@@ -75,7 +79,25 @@ func init() {
 		document.VerifResetGlobals()
 		var a c11Args
 		json.Unmarshal(args, &a)
-		inst := &c11Inst{doc: document.New(), defs: map[string]c11Def{}, narrow: a.Narrow}
+		inst := &c11Inst{doc: document.New(), defs: map[string]c11Def{}, narrow: a.Narrow || a.Late, late: a.Late}
+		if a.Late {
+			for _, n := range []string{"AddHeader(default,P {{v}})", "AddFooter(default,A)", "LoadTemplateFromDocument (engine kept; the base keeps being edited)"} {
+				found := false
+				for k, o := range c11Ops {
+					if o.name == n {
+						inst.narrow = false
+						if out, v := inst.Apply(k); out != "ok" || len(v) > 0 {
+							panic(fmt.Sprintf("harness: late prefix %s: %s %v", n, out, v))
+						}
+						inst.narrow = true
+						found = true
+					}
+				}
+				if !found {
+					panic("harness: late prefix names an unknown operation " + n)
+				}
+			}
+		}
 		if a.Family {
 			// third search: the histories start in the state after a template with three header/footer
 			// definitions (three relationships) has been rendered; the history continues on the rendered document
@@ -104,6 +126,9 @@ func init() {
 type c11Args struct {
 	Narrow bool `json:"narrow"`
 	Family bool `json:"family"`
+	// Late: fourth search - prefix AddHeader(default,P {{v}}), AddFooter(default,A), LoadTemplateFromDocument, then
+	// the narrow alphabet plus "render through the engine that loaded the document earlier"
+	Late bool `json:"late"`
 }
 
 var c11NarrowOps = map[string]bool{
@@ -126,11 +151,27 @@ type c11Inst struct {
 	onBase   int
 	onSib    int
 	sib      *document.Document
+	// load now, render later
+	late     bool
+	lateEng  *document.TemplateEngine
+	loadDefs map[string]c11Def
+	nlate    int
 }
 
 func (i *c11Inst) Enabled(op int) bool {
-	if i.narrow && !c11NarrowOps[c11Ops[op].name] {
+	if i.narrow && !c11NarrowOps[c11Ops[op].name] && !(i.late && c11Ops[op].kind == "render-late") {
 		return false
+	}
+	switch c11Ops[op].kind {
+	case "reopen", "render":
+		// after a load the engine holds THIS document object: the history stays on it until the late render
+		if i.lateEng != nil && i.nlate < 1 {
+			return false
+		}
+	case "load":
+		return i.lateEng == nil && i.base == nil
+	case "render-late":
+		return i.lateEng != nil && i.nlate < 1
 	}
 	switch c11Ops[op].kind {
 	case "reopen":
@@ -214,6 +255,39 @@ func (i *c11Inst) Apply(op int) (string, []rep.Violation) {
 			i.doc = d
 			i.reop++
 			i.lastNT = true
+		case "load":
+			eng := document.NewTemplateEngine()
+			if _, e := eng.LoadTemplateFromDocument("late", i.doc); e != nil {
+				viol = append(viol, rep.Violation{Sig: "template-load-failed", Clause: "render", What: e.Error()})
+				return
+			}
+			i.lateEng = eng
+			i.loadDefs = map[string]c11Def{}
+			for k, v := range i.defs {
+				i.loadDefs[k] = v
+			}
+			i.lastNT = true
+		case "render-late":
+			i.nlate++
+			i.lastNT = true
+			d, e := i.lateEng.RenderTemplateToDocument("late", document.NewTemplateData())
+			if e != nil || d == nil {
+				viol = append(viol, rep.Violation{Sig: "template-render-failed|late", Clause: "render", What: fmt.Sprint(e)})
+				return
+			}
+			rp, _, errR := saveRead(d)
+			if errR != "" {
+				viol = append(viol, rep.Violation{Sig: "save-failed|late-render", Clause: "save", What: errR})
+				return
+			}
+			// the statement does not say whether a document template is the base as it was when it was loaded or as
+			// it is when it is rendered; it must be ONE of the two for all kinds
+			live := c11CheckPackage(rp, i.defs, "late-render")
+			snap := c11CheckPackage(rp, i.loadDefs, "late-render")
+			if len(live) > 0 && len(snap) > 0 {
+				viol = append(viol, rep.Violation{Sig: "late-render|neither-the-base-at-load-time-nor-at-render-time|" + strings.SplitN(live[0].Sig, "|", 2)[0], Clause: "late-render",
+					What: fmt.Sprintf("a template loaded earlier and rendered after the base was edited carries header/footer definitions that are neither those the base had when it was loaded (%s: %s) nor those it has now (%s: %s)", snap[0].Sig, snap[0].What, live[0].Sig, live[0].What)})
+			}
 		case "hf-base":
 			err = i.base.AddFooter(o.typ, o.def.Text)
 			if err == nil {
@@ -299,7 +373,7 @@ func (i *c11Inst) Key() string {
 		}
 		refs += rep.Hash(i.base.VerifRelDump())
 	}
-	return strings.Join(ks, ";") + "|" + refs + "|" + i.doc.VerifRelDump() + fmt.Sprintf("|r%d t%d n%d b%d s%d", i.reop, i.rend, len(i.doc.Body.Elements), i.onBase, i.onSib) + "|" + rep.Hash(i.doc.VerifShallowState())
+	return strings.Join(ks, ";") + "|" + refs + "|" + i.doc.VerifRelDump() + fmt.Sprintf("|r%d t%d n%d b%d s%d L%v l%d", i.reop, i.rend, len(i.doc.Body.Elements), i.onBase, i.onSib, i.lateEng != nil, i.nlate) + "|" + rep.Hash(i.doc.VerifShallowState())
 }
 
 // Deep: evaluate the saved package.
@@ -455,7 +529,7 @@ func c11CheckContent(part *pkgmodel.Node, def c11Def, key, stage string) []rep.V
 	}
 	text := part.WText()
 	// texts A..F are distinct single letters: the part must carry this call's text and no other call's
-	for _, other := range []string{"A", "B", "C", "D", "E", "F"} {
+	for _, other := range []string{"A", "B", "C", "D", "E", "F", "P {{v}}"} {
 		if other != def.Text && strings.Contains(text, other) {
 			add("stale-or-foreign-text", fmt.Sprintf("part text %q contains %q, the latest call's text is %q", text, other, def.Text))
 		}
@@ -541,4 +615,8 @@ func runC11(r *rep.Run) {
 	fam := depth - 1
 	r.Bounds["family_depth_after_render_of_a_three_definition_template"] = fam
 	r.Merge(seqx.Search("C11", seqx.Opts{Depth: fam, Deadline: r.Deadline, Args: c11Args{Family: true}}))
+	// fourth search: load now, render later (narrow alphabet + the late render) after the prefix header P {{v}}, footer A, load
+	lateDepth := depth + 1
+	r.Bounds["late_render_depth_after_load"] = lateDepth
+	r.Merge(seqx.Search("C11", seqx.Opts{Depth: lateDepth, Deadline: r.Deadline, Args: c11Args{Late: true}}))
 }
